@@ -32,6 +32,8 @@ def run_c04(tier, seed, rep, only_prop=False, scale=1):
     for k in range(n1):
         labels, span = G.gen_labels(rng, tier)
         o = dist_opts(rng, labels)
+        if rng.random() < 0.02:
+            labels = []         # no labels at all: no layers
         mode = "exact" if k % 2 and len(labels) <= 60 else "float"      # Fraction-keyed interval trees get very slow on large label sets
         try:
             cs.append((I.run_dist(labels, o, mode), {"kind": "dist", "labels": labels, "opts": o, "mode": mode}))
